@@ -3,100 +3,103 @@
     ascending and duplicate free for EVERY input. *)
 From Coq Require Import String Ascii List Bool Arith NArith ZArith Lia Sorted.
 From Raven Require Import Base.GoStr Base.GoStrFacts Model.Search Model.SearchText Spec.Search Model.SearchClass
-  Proof.SearchTok Proof.SearchAtoms Proof.SearchDate Proof.SearchEval Proof.SearchExact.
+  Proof.SearchTok Proof.SearchAtoms Proof.SearchDate Proof.SearchEval Proof.SearchToks Proof.SearchExact.
+From Raven Require Model.SeqSet Spec.SeqSet.
 Import ListNotations.
 Local Open Scope Z_scope.
 Local Arguments Ascii.eqb : simpl never.
 
-Definition plain (c : ascii) : bool :=
-  negb (is_space c) && negb (Ascii.eqb c dq) && negb (Ascii.eqb c lpar) && negb (Ascii.eqb c rpar).
+(** ** the fuel [eval_tokens] supplies is enough for every program *)
+Lemma measure_app a b : tokens_measure (a ++ b) = (tokens_measure a + tokens_measure b)%nat.
+Proof. induction a as [|t a IH]; [reflexivity|]. cbn [app tokens_measure fold_right] in *. fold (tokens_measure (a ++ b)). fold (tokens_measure a). lia. Qed.
 
-Lemma plain_scan t : forallb plain t = true -> tok_scan t false = true.
+Lemma measure_join toks : (tokens_measure toks <= S (length (join toks [sp])))%nat.
 Proof.
-  induction t as [|c t IH]; intros H; [reflexivity|]. cbn [forallb] in H. apply andb_true_iff in H as [H1 H2].
-  unfold plain in H1. repeat (apply andb_true_iff in H1 as [H1 ?]).
-  repeat match goal with X : negb _ = true |- _ => apply negb_true_iff in X end.
-  cbn [tok_scan]. rewrite H3. rewrite H0, H, H1. cbn [negb andb]. now apply IH.
+  induction toks as [|t toks IH]; [cbn; lia|]. destruct toks as [|t2 toks].
+  - cbn. lia.
+  - change (join (t :: t2 :: toks) [sp]) with (t ++ sp :: join (t2 :: toks) [sp]).
+    rewrite app_length. cbn [length]. cbn [tokens_measure fold_right] in *. fold (tokens_measure (t2 :: toks)) in *. lia.
 Qed.
 
-Lemma plain_tok t : t <> [] -> forallb plain t = true -> tok_ok t = true.
-Proof. intros N H. destruct t; [congruence|]. now apply plain_scan. Qed.
-
-Lemma digits_plain d : forallb is_digit d = true -> forallb plain d = true.
+Lemma measure_pos k : (1 <= tokens_measure (key_tokens k))%nat.
 Proof.
-  apply forallb_impl. intros c H. destruct (digit_facts c H) as (_ & _ & _ & _ & _ & _ & A & B & C & D).
-  unfold plain. now rewrite A, B, C, D.
+  pose proof (key_tokens_nonempty k) as N. destruct (key_tokens k); [congruence|]. cbn. lia.
 Qed.
 
-Lemma quote_scan v : string_ok v = true -> tok_scan (v ++ [dq]) true = true.
+Lemma pdepth_measure l : Forall (fun k => (depth k + 1 <= tokens_measure (key_tokens k))%nat) l ->
+  (pdepth l <= tokens_measure (flat_map key_tokens l))%nat.
 Proof.
-  induction v as [|c v IH]; intros H; [reflexivity|]. cbn [string_ok forallb] in H. apply andb_true_iff in H as [H1 H2].
-  unfold qchar_ok in H1. repeat (apply andb_true_iff in H1 as [H1 ?]). apply negb_true_iff in H1.
-  cbn [app tok_scan]. rewrite H1. now apply IH.
+  induction 1 as [|k l H _ IH]; [cbn; lia|]. cbn [pdepth fold_right flat_map]. fold (pdepth l). rewrite measure_app. lia.
 Qed.
 
-Lemma quote_tok v : string_ok v = true -> tok_ok (quote v) = true.
-Proof. intros H. unfold quote, tok_ok. cbn [tok_scan]. rewrite Ascii.eqb_refl. cbn [negb]. now apply quote_scan. Qed.
-
-Lemma simple_toks_ok k mb : wf_key k = true -> simple_class k mb = None -> forallb tok_ok (key_tokens k) = true.
+Lemma depth_measure k : (depth k + 1 <= tokens_measure (key_tokens k))%nat.
 Proof.
-  intros W C. destruct k; cbn [simple_class] in C; try discriminate; cbn [key_tokens wf_key] in *.
-  - reflexivity.
-  - destruct f; reflexivity.
-  - destruct f; reflexivity.
-  - reflexivity.
-  - destruct (atom_facts w W) as (A1 & _ & _ & _ & A5). cbn [forallb]. rewrite (plain_tok w A1 A5). reflexivity.
-  - destruct (atom_facts w W) as (A1 & _ & _ & _ & A5). cbn [forallb]. rewrite (plain_tok w A1 A5). reflexivity.
-  - unfold set_class in C. destruct s as [|[[d|]|[a|] [b|]] [|? ?]]; try discriminate; unfold set_ok in W; cbn in W; rewrite andb_true_r in W.
-    + destruct (numeral_digits d W) as [Hd Hne]. unfold print_set. cbn [map join print_item print_snum forallb].
-      rewrite (plain_tok d Hne (digits_plain d Hd)). reflexivity.
-    + apply andb_true_iff in W as [Wa Wb]. destruct (numeral_digits a Wa) as [Hda Hnea]. destruct (numeral_digits b Wb) as [Hdb Hneb].
-      unfold print_set. cbn [map join print_item print_snum forallb]. rewrite (plain_tok (a ++ colon :: b)); [reflexivity | now destruct a |].
-      rewrite forallb_app, (digits_plain a Hda). cbn [forallb]. now rewrite (digits_plain b Hdb).
-  - unfold set_class in C. destruct s as [|[[d|]|[a|] [b|]] [|? ?]]; try discriminate; unfold set_ok in W; cbn in W; rewrite andb_true_r in W.
-    + destruct (numeral_digits d W) as [Hd Hne]. unfold print_set. cbn [map join print_item print_snum forallb].
-      rewrite (plain_tok d Hne (digits_plain d Hd)). reflexivity.
-    + apply andb_true_iff in W as [Wa Wb]. destruct (numeral_digits a Wa) as [Hda Hnea]. destruct (numeral_digits b Wb) as [Hdb Hneb].
-      unfold print_set. cbn [map join print_item print_snum forallb]. rewrite (plain_tok (a ++ colon :: b)); [reflexivity | now destruct a |].
-      rewrite forallb_app, (digits_plain a Hda). cbn [forallb]. now rewrite (digits_plain b Hdb).
-  - cbn [forallb]. rewrite (quote_tok v W). destruct h; reflexivity.
-  - apply andb_true_iff in W as [W1 W2]. cbn [forallb]. now rewrite (quote_tok f W1), (quote_tok v W2).
-  - cbn [forallb]. now rewrite (quote_tok v W).
-  - cbn [forallb]. now rewrite (quote_tok v W).
-  - destruct (numeral_digits n W) as [Hd Hne]. cbn [forallb]. now rewrite (plain_tok n Hne (digits_plain n Hd)).
-  - destruct (numeral_digits n W) as [Hd Hne]. cbn [forallb]. now rewrite (plain_tok n Hne (digits_plain n Hd)).
-  - cbn [forallb]. rewrite (plain_tok (print_date d)).
-    + destruct sent, c; reflexivity.
-    + destruct d as [[dd mon] yyyy]. unfold print_date. intros E. destruct dd; cbn [app] in E; discriminate E.
-    + exact (date_plain d W).
+  induction k as [k A | k IH | a b IHa IHb | l IH] using key_ind2.
+  - pose proof (measure_pos k). destruct k; try contradiction; cbn [depth]; lia.
+  - cbn [depth key_tokens]. change (tokens_measure (S_ "NOT" :: key_tokens k)) with (4 + tokens_measure (key_tokens k))%nat. lia.
+  - cbn [depth key_tokens]. change (tokens_measure (S_ "OR" :: key_tokens a ++ key_tokens b)) with (3 + tokens_measure (key_tokens a ++ key_tokens b))%nat.
+    rewrite measure_app. lia.
+  - pose proof (pdepth_measure l IH) as P. pose proof (measure_join (flat_map key_tokens l)) as J.
+    cbn [depth key_tokens]. fold (pdepth l). cbn [tokens_measure fold_right length]. rewrite app_length. cbn [length]. lia.
 Qed.
 
-Lemma key_toks_ok k mb : wf_key k = true -> key_class k mb = None -> forallb tok_ok (key_tokens k) = true.
+Lemma eval_tokens_prog mb i sm ks :
+  In (i, sm) (numbered mb) -> mb_ok mb = true -> forallb wf_key ks = true -> classify ks mb = None ->
+  eval_tokens go_text (to_msg mb (i, sm)) (prog_tokens ks) = Some (spec_all (Z.of_nat (length mb)) (last_uid mb) ks i sm).
 Proof.
-  intros W C. destruct k; try (apply simple_toks_ok with (mb := mb); assumption).
-  - cbn [key_class] in C. apply operand_inv in C as [_ C]. cbn [key_tokens wf_key forallb] in *.
-    now rewrite (simple_toks_ok k mb W C).
-  - cbn [key_class] in C. destruct (operand_class k1 mb) eqn:C1; [discriminate|].
-    apply operand_inv in C1 as [_ C1]. apply operand_inv in C as [_ C2].
-    cbn [wf_key] in W. apply andb_true_iff in W as [W1 W2].
-    cbn [key_tokens forallb]. rewrite forallb_app. now rewrite (simple_toks_ok k1 mb W1 C1), (simple_toks_ok k2 mb W2 C2).
+  intros Hin Hmb W C. unfold eval_tokens. apply (prog_step mb i sm Hin Hmb ks W C).
+  apply pdepth_measure. apply Forall_forall. intros k _. apply depth_measure.
 Qed.
 
-Lemma prog_toks_ok ks mb : forallb wf_key ks = true -> classify ks mb = None -> forallb tok_ok (prog_tokens ks) = true.
+(** ** the listing: HandleSearch's max fields, the highest UID is the last one *)
+Lemma numbered_length {A} (l : list A) : forall i, length (number_from i l) = length l.
+Proof. induction l as [|x l IH]; intros i; [reflexivity|]. cbn. now rewrite IH. Qed.
+
+Lemma last_uid_map n u l : forall i d0 d1, m_uid d0 = s_uid d1 ->
+  m_uid (last (map (to_msg_in n u) (number_from i l)) d0) = s_uid (last l d1).
 Proof.
-  induction ks as [|k ks IH]; intros W C; [reflexivity|].
-  cbn [forallb] in W. apply andb_true_iff in W as [W1 W2].
-  cbn [classify] in C. destruct (key_class k mb) eqn:C1; [discriminate|].
-  unfold prog_tokens. cbn [flat_map]. rewrite forallb_app. rewrite (key_toks_ok k mb W1 C1). now apply IH.
+  induction l as [|x l IH]; intros i d0 d1 E; [exact E|].
+  destruct l as [|y l]; [reflexivity|].
+  change (last (x :: y :: l) d1) with (last (y :: l) d1).
+  change (number_from i (x :: y :: l)) with ((i, x) :: number_from (i + 1) (y :: l)).
+  cbn [map]. change (last (?a :: map (to_msg_in n u) (number_from (i + 1) (y :: l))) d0)
+    with (last (map (to_msg_in n u) (number_from (i + 1) (y :: l))) d0).
+  now apply IH.
 Qed.
 
-Lemma key_tokens_nonempty k : key_tokens k <> [].
-Proof. destruct k; discriminate. Qed.
-
-Lemma tok_ok_head c t : tok_ok (c :: t) = true -> is_space c = false.
+Lemma fill_max_to_msgs mb : fill_max (to_msgs mb) = to_msgs mb.
 Proof.
-  unfold tok_ok. cbn [tok_scan]. destruct (Ascii.eqb_spec c dq) as [->|_]; [reflexivity|].
-  intros H. repeat (apply andb_true_iff in H as [H ?]). now apply negb_true_iff.
+  unfold fill_max, to_msgs, to_msg. rewrite map_length. unfold numbered. rewrite numbered_length.
+  rewrite (last_uid_map _ _ mb 1 (mk_msg 0 0 [] [] (0, 0, 0) 0 0) (mk_smsg 0 [] [] (0, 0, 0)) eq_refl). fold (last_uid mb).
+  rewrite map_map. apply map_ext. intros [i m]. reflexivity.
+Qed.
+
+Lemma asc_last l : Spec.SeqSet.ascendingb l = true -> forall x, (forall y, In y (x :: l) -> 0 < y) ->
+  Spec.SeqSet.ascendingb (x :: l) = true -> x <= last (x :: l) 0 /\ Spec.SeqSet.max_uid (x :: l) = last (x :: l) 0.
+Proof.
+  induction l as [|y l IH]; intros A x P Ax.
+  - cbn. split; [lia|]. specialize (P x (or_introl eq_refl)). lia.
+  - cbn [Spec.SeqSet.ascendingb] in Ax. apply andb_true_iff in Ax as [Lt Ay]. apply Z.ltb_lt in Lt.
+    assert (Al : Spec.SeqSet.ascendingb l = true).
+    { cbn [Spec.SeqSet.ascendingb] in Ay. destruct l; [reflexivity|]. now apply andb_true_iff in Ay as [_ ?]. }
+    destruct (IH Al y (fun z Hz => P z (or_intror Hz)) Ay) as [Le Mx].
+    change (last (x :: y :: l) 0) with (last (y :: l) 0).
+    unfold Spec.SeqSet.max_uid in *. cbn [fold_right] in *. split; lia.
+Qed.
+
+Lemma last_is_max mb : mb_ok mb = true -> last_uid mb = max_uid mb.
+Proof.
+  unfold mb_ok. intros H. apply andb_true_iff in H as [H P]. apply andb_true_iff in H as [_ A].
+  unfold last_uid, max_uid. destruct mb as [|m0 mb]; [reflexivity|].
+  assert (L : forall l d, s_uid (last l d) = last (map s_uid l) (s_uid d)).
+  { induction l as [|a l IHl]; intros d; [reflexivity|]. destruct l; [reflexivity|]. exact (IHl d). }
+  rewrite L. cbn [map s_uid] in *.
+  assert (Pz : forall y, In y (s_uid m0 :: map s_uid mb) -> 0 < y).
+  { intros y Hy. change (s_uid m0 :: map s_uid mb) with (map s_uid (m0 :: mb)) in Hy. apply in_map_iff in Hy as (z & <- & Hz).
+    rewrite forallb_forall in P. apply Z.ltb_lt. now apply P. }
+  assert (Al : Spec.SeqSet.ascendingb (map s_uid mb) = true).
+  { cbn [Spec.SeqSet.ascendingb] in A. destruct (map s_uid mb); [reflexivity|]. now apply andb_true_iff in A as [_ ?]. }
+  destruct (asc_last _ Al _ Pz A) as [_ E]. now rewrite E.
 Qed.
 
 Lemma print_not_blank ks mb : wf_prog ks = true -> classify ks mb = None -> trim_space (print_prog ks) <> [].
@@ -112,25 +115,47 @@ Qed.
 Lemma msc_eq T m toks : matches_search_criteria T m toks = eval_tokens T m toks.
 Proof. destruct toks; reflexivity. Qed.
 
-Lemma collect_spec (P : Z * smsg -> bool) toks l :
-  (forall im, In im l -> eval_tokens go_text (to_msg im) toks = Some (P im)) ->
-  collect_seq go_text toks (map to_msg l) = Some (map fst (filter P l)).
+Lemma collect_spec mb (P : Z * smsg -> bool) toks l :
+  (forall im, In im l -> eval_tokens go_text (to_msg mb im) toks = Some (P im)) ->
+  collect_seq go_text toks (map (to_msg mb) l) = Some (map (to_msg mb) (filter P l)).
 Proof.
   induction l as [|im l IH]; intros H; [reflexivity|].
   cbn [map collect_seq]. rewrite msc_eq, (H im) by now left. rewrite IH by (intros; apply H; now right).
-  cbn [filter]. destruct (P im); [|reflexivity]. destruct im. reflexivity.
+  cbn [filter]. destruct (P im); reflexivity.
+Qed.
+
+Lemma map_seq_to_msg mb l : map m_seq (map (to_msg mb) l) = map fst l.
+Proof. induction l as [|[i m] l IH]; [reflexivity|]. cbn [map to_msg to_msg_in m_seq fst]. now rewrite IH. Qed.
+Lemma map_uid_to_msg mb l : map m_uid (map (to_msg mb) l) = map (fun '(i, m) => s_uid m) l.
+Proof. induction l as [|[i m] l IH]; [reflexivity|]. cbn [map to_msg to_msg_in m_uid]. now rewrite IH. Qed.
+
+Lemma key_supported mb k : key_class k mb = None -> supported k = true.
+Proof.
+  induction k as [k A | k IH | a b IHa IHb | l IH] using key_ind2; intros C.
+  - rewrite (atomic_class k mb A) in C. destruct k; try reflexivity; try contradiction; discriminate.
+  - cbn [key_class supported] in *. auto.
+  - cbn [key_class supported] in *. destruct (key_class a mb) eqn:C1; [discriminate|]. now rewrite IHa, IHb.
+  - cbn [key_class supported] in *. apply first_class_none in C. apply forallb_forall. rewrite Forall_forall in *. auto.
 Qed.
 
 Lemma classify_supported ks mb : classify ks mb = None -> forallb supported ks = true.
 Proof.
   induction ks as [|k ks IH]; intros C; [reflexivity|]. cbn [classify] in C.
-  destruct (key_class k mb) eqn:C1; [discriminate|]. cbn [forallb]. rewrite (IH C), andb_true_r.
-  destruct k; try reflexivity; cbn [key_class] in C1.
-  - apply operand_inv in C1 as [A _]. cbn [supported]. destruct k; try reflexivity; discriminate.
-  - destruct (operand_class k1 mb) eqn:C2; [discriminate|]. apply operand_inv in C2 as [A1 _]. apply operand_inv in C1 as [A2 _].
-    cbn [supported]. destruct k1; try discriminate; destruct k2; try discriminate; reflexivity.
-  - discriminate.
-  - discriminate.
+  destruct (key_class k mb) eqn:C1; [discriminate|]. cbn [forallb]. now rewrite (key_supported mb k C1), (IH C).
+Qed.
+
+(** the evaluator on the printed program selects exactly the specified entries *)
+Lemma evaluate_exact ks mb : wf_prog ks = true -> mb_ok mb = true -> classify ks mb = None ->
+  evaluate_search_criteria go_text (to_msgs mb) (print_prog ks)
+  = Some (map (to_msg mb) (filter (fun '(i, m) => spec_all (Z.of_nat (length mb)) (max_uid mb) ks i m) (numbered mb))).
+Proof.
+  intros W Hmb C. unfold evaluate_search_criteria.
+  pose proof (print_not_blank ks mb W C) as NB. destruct (trim_space (print_prog ks)) eqn:E; [congruence|]. clear E NB.
+  assert (W' : forallb wf_key ks = true) by (unfold wf_prog in W; now destruct ks).
+  unfold print_prog. rewrite parse_print by (eapply prog_toks_ok; eassumption).
+  unfold to_msgs.
+  apply (collect_spec mb (fun '(i, m) => spec_all (Z.of_nat (length mb)) (max_uid mb) ks i m)).
+  intros [i sm] Hin. rewrite <- (last_is_max mb Hmb). now apply eval_tokens_prog.
 Qed.
 
 (** SEARCH (message.evaluateSearchCriteria on the printed program) returns
@@ -140,27 +165,31 @@ Theorem search_exact ks mb : wf_prog ks = true -> mb_ok mb = true -> classify ks
   /\ spec_search ks mb = SOk (spec_search_list ks mb).
 Proof.
   intros W Hmb C. split.
-  - unfold search, evaluate_search_criteria.
-    pose proof (print_not_blank ks mb W C) as NB. destruct (trim_space (print_prog ks)) eqn:E; [congruence|]. clear E NB.
-    assert (W' : forallb wf_key ks = true) by (unfold wf_prog in W; now destruct ks).
-    unfold print_prog. rewrite parse_print by (eapply prog_toks_ok; eassumption).
-    unfold to_msgs, spec_search_list.
-    apply (collect_spec (fun '(i, m) => spec_all (Z.of_nat (length mb)) (max_uid mb) ks i m)).
-    intros [i sm] Hin. now apply eval_tokens_prog with (mb := mb).
+  - unfold search. rewrite (evaluate_exact ks mb W Hmb C). cbn [option_map]. now rewrite map_seq_to_msg.
   - unfold spec_search. now rewrite (classify_supported ks mb C).
 Qed.
 
+(** UID SEARCH: the same entries, their UIDs *)
+Theorem uid_search_exact ks mb : wf_prog ks = true -> mb_ok mb = true -> classify ks mb = None ->
+  uid_search (to_msgs mb) (print_prog ks) = Some (spec_uid_search_list ks mb)
+  /\ spec_uid_search ks mb = SOk (spec_uid_search_list ks mb).
+Proof.
+  intros W Hmb C. split.
+  - unfold uid_search. rewrite (evaluate_exact ks mb W Hmb C). cbn [option_map]. now rewrite map_uid_to_msg.
+  - unfold spec_uid_search. now rewrite (classify_supported ks mb C).
+Qed.
+
 (** ** ascending, duplicate free, for every criteria string and every text semantics *)
-Lemma collect_sorted T toks msgs : forall l,
-  StronglySorted Z.lt (map m_seq msgs) -> collect_seq T toks msgs = Some l ->
-  StronglySorted Z.lt l /\ incl l (map m_seq msgs).
+Lemma collect_sorted (proj : msg -> Z) T toks msgs : forall l,
+  StronglySorted Z.lt (map proj msgs) -> collect_seq T toks msgs = Some l ->
+  StronglySorted Z.lt (map proj l) /\ incl (map proj l) (map proj msgs).
 Proof.
   induction msgs as [|m ms IH]; intros l S H; cbn [collect_seq] in H.
   - injection H as <-. split; [constructor | intros x []].
   - destruct (matches_search_criteria T m toks) as [b|]; [|discriminate].
     destruct (collect_seq T toks ms) as [l'|] eqn:E; [|discriminate]. injection H as <-.
     cbn [map] in S. apply StronglySorted_inv in S as [S1 S2]. destruct (IH l' S1 eq_refl) as [I1 I2].
-    destruct b.
+    destruct b; cbn [map].
     + split.
       * constructor; [exact I1|]. rewrite Forall_forall in *. intros x Hx. apply S2. now apply I2.
       * intros x [<- | Hx]; [now left | right; now apply I2].
@@ -173,46 +202,32 @@ Proof.
   intros Hx. rewrite Forall_forall in F. specialize (F x Hx). lia.
 Qed.
 
-Theorem search_ascending T parts msgs l :
-  StronglySorted Z.lt (map m_seq msgs) -> handle_search T parts msgs = ROk l ->
-  StronglySorted Z.lt l /\ NoDup l /\ incl l (map m_seq msgs).
+Lemma fill_max_proj (by_uid : bool) msgs :
+  map (if by_uid then m_uid else m_seq) (fill_max msgs) = map (if by_uid then m_uid else m_seq) msgs.
+Proof. unfold fill_max. rewrite map_map. apply map_ext. intros m. destruct by_uid; reflexivity. Qed.
+
+(** ascending, duplicate free, inside the mailbox: SEARCH (sequence numbers) and
+    UID SEARCH (UIDs), for every argument list, text semantics and listing *)
+Theorem selected_ascending T args (by_uid : bool) msgs l :
+  StronglySorted Z.lt (map (if by_uid then m_uid else m_seq) msgs) -> search_selected T args by_uid msgs = ROk l ->
+  StronglySorted Z.lt l /\ NoDup l /\ incl l (map (if by_uid then m_uid else m_seq) msgs).
 Proof.
-  intros S H. unfold handle_search in H.
-  destruct (Z.of_nat (length parts) <? 3); [discriminate|].
+  intros S H. unfold search_selected in H.
+  destruct (length args <? 1)%nat; [discriminate|].
   match type of H with (if ?c then _ else _) = _ => destruct c; [discriminate|] end.
   match type of H with (if ?c then _ else _) = _ => destruct c; [discriminate|] end.
   match type of H with match ?e with _ => _ end = _ => destruct e as [l'|] eqn:E; [|discriminate] end.
   injection H as <-. unfold evaluate_search_criteria in E.
-  destruct (collect_sorted _ _ _ _ S E) as [A B]. repeat split; try assumption. now apply sorted_nodup.
+  rewrite <- (fill_max_proj by_uid msgs) in S |- *.
+  destruct (collect_sorted _ _ _ _ _ S E) as [A B]. repeat split; try assumption. now apply sorted_nodup.
 Qed.
 
-Lemma filter_sorted (f : msg -> bool) msgs : StronglySorted Z.lt (map m_uid msgs) ->
-  StronglySorted Z.lt (map m_uid (filter f msgs)) /\ incl (map m_uid (filter f msgs)) (map m_uid msgs).
-Proof.
-  induction msgs as [|m ms IH]; intros S; [split; [constructor | intros x []]|].
-  cbn [map] in S. apply StronglySorted_inv in S as [S1 S2]. destruct (IH S1) as [I1 I2]. cbn [filter].
-  destruct (f m); cbn [map].
-  - split; [constructor; [exact I1|]; rewrite Forall_forall in *; intros x Hx; apply S2; now apply I2
-           | intros x [<- | Hx]; [now left | right; now apply I2]].
-  - split; [exact I1 | intros x Hx; right; now apply I2].
-Qed.
+Theorem search_ascending T parts msgs l :
+  StronglySorted Z.lt (map m_seq msgs) -> handle_search T parts msgs = ROk l ->
+  StronglySorted Z.lt l /\ NoDup l /\ incl l (map m_seq msgs).
+Proof. intros S H. exact (selected_ascending T _ false msgs l S H). Qed.
 
-Theorem uid_search_ascending parts msgs l :
-  StronglySorted Z.lt (map m_uid msgs) -> handle_uid_search parts msgs = ROk l ->
+Theorem uid_search_ascending T parts msgs l :
+  StronglySorted Z.lt (map m_uid msgs) -> handle_uid_search T parts msgs = ROk l ->
   StronglySorted Z.lt l /\ NoDup l /\ incl l (map m_uid msgs).
-Proof.
-  intros S H.
-  assert (K : l = [] \/ l = map m_uid msgs \/ exists f, l = map m_uid (filter f msgs)).
-  { unfold handle_uid_search in H.
-    destruct (Z.of_nat (length parts) <? 4); [discriminate|].
-    match type of H with (if ?c then _ else _) = _ => destruct c end; [injection H as <-; auto|].
-    match type of H with (if ?c then _ else _) = _ => destruct c end; [|injection H as <-; auto].
-    destruct (uid_range_of _) as [r|]; [|injection H as <-; auto].
-    destruct (contains r [colon]); [|injection H as <-; auto].
-    destruct (split_byte r colon) as [|a [|b [|? ?]]]; try (injection H as <-; auto).
-    right. right. eexists. reflexivity. }
-  destruct K as [-> | [-> | [f ->]]].
-  - repeat split; [constructor | constructor | intros x []].
-  - repeat split; [exact S | now apply sorted_nodup | apply incl_refl].
-  - destruct (filter_sorted f msgs S) as [A B]. repeat split; [exact A | now apply sorted_nodup | exact B].
-Qed.
+Proof. intros S H. exact (selected_ascending T _ true msgs l S H). Qed.
